@@ -328,15 +328,8 @@ Neg(x) == <<[Z EXCEPT !.k = "not", !.a = 2]>> \o Shift(x, 1)
 MenuN == IF MenuSize < Len(W.menu) THEN MenuSize ELSE Len(W.menu)
 Atoms == {W.menu[j] : j \in 1..MenuN}
 Ops == {"and", "or", "xor"}
-(* all trees of depth <= 3 whose leftmost-innermost atom is x *)
-TreesFrom(x) ==
-  {x} \cup {Neg(x)} \cup {Bin(op, x, y) : op \in Ops, y \in Atoms}
-      \cup {Bin(op, Bin(op2, x, y), z) : op \in {"and", "or"}, op2 \in Ops, y \in Atoms, z \in Atoms}
-      \cup {Bin(op, z, Bin(op2, x, y)) : op \in {"and", "or"}, op2 \in Ops, y \in Atoms, z \in Atoms}
-      \cup {Bin(op, Neg(x), y) : op \in Ops, y \in Atoms}
-      \cup {Neg(Bin(op, x, y)) : op \in Ops, y \in Atoms}
-Trees2 == Atoms \cup {Bin(op, x, y) : op \in Ops, x \in Atoms, y \in Atoms} \cup {Neg(x) : x \in Atoms}
-Trees3 == UNION {TreesFrom(x) : x \in Atoms}
+(* (an operator with a parameter, so that TLC does not evaluate the whole set at start-up) *)
+Trees2(A) == A \cup {Bin(op, x, y) : op \in Ops, x \in A, y \in A} \cup {Neg(x) : x \in A}
 Sorts == {"unspecified", "unsorted", "blobref", "created", "createdAsc", "lastmod"}
 
 (* TLC computes initial states with one thread, successors with all workers: the trees are therefore
